@@ -81,6 +81,17 @@ func resumeThread(L *LState, th *LState, raise bool) int {
 		L.Push(LString(msg))
 		return 2
 	}
+	if !resumeNests(L) {
+		// lua_resume: the chain of resumes in progress is LUAI_MAXCCALLS deep; th stays suspended
+		msg := "C stack overflow"
+		if raise {
+			L.RaiseError(msg)
+			return 0
+		}
+		L.Push(LFalse)
+		L.Push(LString(msg))
+		return 2
+	}
 	if th.stack.IsEmpty() {
 		// the body was a Go function and it has yielded: nothing of it is left to run, so it returns
 		// what this resume passes and the coroutine is dead
@@ -118,6 +129,19 @@ func resumeThread(L *LState, th *LState, raise bool) int {
 	top := L.GetTop()
 	threadRun(th)
 	return L.GetTop() - top
+}
+
+// resumeNests reports whether L may resume one more thread: L, the thread that resumed L, and so
+// on down to the thread that is not in a resume, must be fewer than MaxCoroutineNesting. Every
+// level of that chain holds a thread with its registry and a piece of the Go stack (resumeThread,
+// threadRun, mainLoop), so a function that resumes a new coroutine of itself without end would
+// otherwise take the whole process down instead of raising an error.
+func resumeNests(L *LState) bool {
+	depth := 0
+	for p := L; p != nil; p = p.Parent {
+		depth++
+	}
+	return depth < MaxCoroutineNesting
 }
 
 // resumeFits reports whether the registry of th has room for nargs values passed by a resume. They
